@@ -71,7 +71,18 @@ int Var::div(Var &var_d, Var &var_s)
 {
   if (var_d.type == VAR_INT && var_s.type == VAR_INT)
   {
-    value_int = var_d.value_int / var_s.value_int;
+    // Division by zero has no value.
+    if (var_s.value_int == 0) { return -1; }
+
+    if (var_s.value_int == -1)
+    {
+      // INT64_MIN / -1 would trap, wrap like the other operators do.
+      value_int = (int64_t)(0 - (uint64_t)var_d.value_int);
+    }
+      else
+    {
+      value_int = var_d.value_int / var_s.value_int;
+    }
   }
     else
   {
@@ -86,6 +97,16 @@ int Var::mod(Var &var_d, Var &var_s)
 {
   var_d.to_int();
   var_s.to_int();
+
+  // Modulo by zero has no value.
+  if (var_s.value_int == 0) { return -1; }
+
+  // INT64_MIN % -1 would trap.
+  if (var_s.value_int == -1)
+  {
+    value_int = 0;
+    return 0;
+  }
 
   value_int = var_d.value_int % var_s.value_int;
 
@@ -166,6 +187,9 @@ int Var::shift_left(Var &var_d, Var &var_s)
   var_d.to_int();
   var_s.to_int();
 
+  // Shifting by a negative count or by 64 or more bits is undefined.
+  if (var_s.value_int < 0 || var_s.value_int > 63) { return -1; }
+
   value_int = var_d.value_int << var_s.value_int;
 
   return 0;
@@ -176,6 +200,9 @@ int Var::shift_right(Var &var_d, Var &var_s)
   var_d.to_int();
   var_s.to_int();
 
+  // Shifting by a negative count or by 64 or more bits is undefined.
+  if (var_s.value_int < 0 || var_s.value_int > 63) { return -1; }
+
   value_int = var_d.value_int >> var_s.value_int;
 
   return 0;
@@ -185,6 +212,9 @@ int Var::shift_right_unsigned(Var &var_d, Var &var_s)
 {
   var_d.to_int();
   var_s.to_int();
+
+  // Shifting by a negative count or by 64 or more bits is undefined.
+  if (var_s.value_int < 0 || var_s.value_int > 63) { return -1; }
 
   value_int = (uint64_t)var_d.value_int >> var_s.value_int;
 
